@@ -184,6 +184,27 @@ pub fn enumerate(game: &Game, depth: u32, full_limit: u64, c07: bool, c18: bool,
             acc.violate(Violation { prop: "C18".into(), sig: format!("C18/{}", cls), detail: format!("{} [root {} unlimited clock]", detail, root.fen()), scenario: scenario(game, None, depth, "C18"), run: runno });
         }
     }
+    // "a larger allowance never changes the sequence, it only extends it": allowances of any
+    // magnitude that the clock never reaches must report exactly the reference's sequence
+    if c07 && only_k.is_none() {
+        const HUGE: &[u128] = &[(1u128 << 63) - 1, 1u128 << 63, (1u128 << 64) + 1234, 1u128 << 100, u128::MAX, 20_000_000];
+        let a = HUGE[(runno % HUGE.len() as u64) as usize];
+        let big = sb::run_search_with_allowance(&b, &table, u64::MAX, Some(depth + 1), NODE_CAP, a);
+        acc.evals += 1;
+        acc.count("c07_runs_with_huge_allowance");
+        let x: Vec<&str> = big.lines.iter().map(|(_, l)| sb::strip_time(l)).collect();
+        let y: Vec<&str> = refr.lines.iter().map(|(_, l)| sb::strip_time(l)).collect();
+        if big.panicked.is_some() || x != y || big.sends.len() != refr.sends.len() || big.sends.iter().zip(refr.sends.iter()).any(|(p, q)| !sb::same_board(p, q)) {
+            let i = x.iter().zip(y.iter()).position(|(p, q)| p != q).unwrap_or(x.len().min(y.len()));
+            acc.violate(Violation {
+                prop: "C07".into(),
+                sig: "C07/larger-allowance-changes-the-sequence".into(),
+                detail: format!("with an allowance of {} ms (never reached) improvement #{} is {:?}, with 10^9 ms it is {:?}; panic: {:?} [root {}]", a, i, x.get(i), y.get(i), big.panicked, root.fen()),
+                scenario: json!({"family": "SB", "check": "C07", "start_fen": game.start.fen(), "moves": game.moves_text(), "expire_at": Value::Null, "depth": depth, "allowance_ms": a.to_string()}),
+                run: runno,
+            });
+        }
+    }
     let (ks, exhaustive) = match only_k {
         Some(k) => (vec![k], false),
         None => kset(rng, &refr, full_limit),
@@ -223,6 +244,13 @@ pub fn replay_expiry(sc: &Value, prop: &str) -> Acc {
     };
     let depth = sc["depth"].as_u64().unwrap_or(2) as u32;
     let mut rng = Rng::new(1);
+    if let Some(a) = sc["allowance_ms"].as_str().and_then(|s| s.parse::<u128>().ok()) {
+        // the huge-allowance comparison is selected by run number (see `enumerate`)
+        const HUGE: &[u128] = &[(1u128 << 63) - 1, 1u128 << 63, (1u128 << 64) + 1234, 1u128 << 100, u128::MAX, 20_000_000];
+        let idx = HUGE.iter().position(|x| *x == a).unwrap_or(0) as u64;
+        enumerate(&game, depth, 0, prop == "C07", prop == "C18", &mut acc, idx, &z, &mut rng, None);
+        return acc;
+    }
     let k = sc["expire_at"].as_u64();
     match k {
         Some(k) => enumerate(&game, depth, 0, prop == "C07", prop == "C18", &mut acc, 0, &z, &mut rng, Some(k)),
